@@ -538,11 +538,83 @@ def module_state_writes(mod):
     return out
 
 
+def guarded_memos(mod, hits=None):
+    """module-level dicts that are result memos kept in step with the module state they were computed from: every in-place write is ``G[key] = value`` or ``G.clear()``; every
+    storing function also looks the key up in G; and every outermost function of the module that rebinds or writes (itself or through the module functions it calls) a piece of
+    module state the storing functions read, empties G by an unconditional statement of its own body.  A memo of that shape never answers from a superseded state."""
+    hits = module_state_writes(mod) if hits is None else hits
+    byname = {}
+    for h in hits:
+        byname.setdefault(h[2], []).append(h)
+    fns = {f.name: f for f in mod.body if isinstance(f, ast.FunctionDef)}
+    calls = {name: {norm(c.func) for c in ast.walk(f) if isinstance(c, ast.Call) and isinstance(c.func, ast.Name) and c.func.id in fns} for name, f in fns.items()}
+
+    def reach(start):
+        seen, todo = set(), list(start)
+        while todo:
+            x = todo.pop()
+            if x in seen:
+                continue
+            seen.add(x)
+            todo.extend(calls.get(x, ()))
+        return seen
+    # module state: names rebound through `global` or written in place inside some function
+    writers = {}
+    for name, f in fns.items():
+        declared = {n_ for st in ast.walk(f) if isinstance(st, ast.Global) for n_ in st.names}
+        for st in ast.walk(f):
+            if isinstance(st, (ast.Assign, ast.AugAssign, ast.AnnAssign)):
+                for t in (st.targets if isinstance(st, ast.Assign) else [st.target]):
+                    for x in ast.walk(t):
+                        if isinstance(x, ast.Name) and isinstance(x.ctx, ast.Store) and x.id in declared:
+                            writers.setdefault(x.id, set()).add(name)
+    for h in hits:
+        writers.setdefault(h[2], set()).add(h[0].name)
+    out = set()
+    for g, hs in byname.items():
+        ok = True
+        storing = set()
+        for fn, st, _g, how in hs:
+            if isinstance(st, ast.Assign) and len(st.targets) == 1 and isinstance(st.targets[0], ast.Subscript) and isinstance(st.targets[0].value, ast.Name):
+                storing.add(fn.name)
+            elif how.startswith('.clear()'):
+                pass
+            else:
+                ok = False
+        if not ok or not storing or not all(n_ in fns for n_ in storing):
+            continue
+        for n_ in storing:
+            looked = any((isinstance(x, ast.Compare) and any(isinstance(o, (ast.In, ast.NotIn)) for o in x.ops) and any(isinstance(c, ast.Name) and c.id == g for c in x.comparators)) or
+                         (isinstance(x, ast.Subscript) and isinstance(x.ctx, ast.Load) and isinstance(x.value, ast.Name) and x.value.id == g) or
+                         (isinstance(x, ast.Call) and isinstance(x.func, ast.Attribute) and x.func.attr == 'get' and isinstance(x.func.value, ast.Name) and x.func.value.id == g) for x in ast.walk(fns[n_]))
+            ok = ok and looked
+        if not ok:
+            continue
+        readers = reach(storing)
+        deps = {x.id for n_ in readers for x in ast.walk(fns[n_]) if isinstance(x, ast.Name) and isinstance(x.ctx, ast.Load) and x.id in writers and x.id != g}
+        dirty = set()
+        for d_ in deps:
+            dirty |= writers[d_]
+        touching = {n_ for n_ in fns if reach([n_]) & dirty}
+        roots = {n_ for n_ in touching if not any(n_ in calls[m_] for m_ in fns if m_ != n_)}
+
+        def empties(f):
+            for st in f.body:
+                if isinstance(st, ast.Expr) and isinstance(st.value, ast.Call) and isinstance(st.value.func, ast.Attribute) and st.value.func.attr == 'clear' and isinstance(st.value.func.value, ast.Name) and st.value.func.value.id == g:
+                    return True
+            return False
+        if all(empties(fns[r_]) for r_ in roots):
+            out.add(g)
+    return out
+
+
 def module_state(ctx, rule, rel, allowed=(), what='module-level arrays and containers are not written in place by functions (a write would carry over into the next call)'):
     """MODULE-STATE: no function of the module writes in place into a module-level array / list / dict (state carried across calls, across objects).
     `allowed`: names that are documented module state (rebuilt by a reset function)."""
     mod = ctx.mod(rel)
-    hits = [h for h in module_state_writes(mod) if h[2] not in allowed]
+    hits = module_state_writes(mod)
+    memo = guarded_memos(mod, hits)
+    hits = [h for h in hits if h[2] not in allowed and h[2] not in memo]
     for fn, st, g, how in hits:
         ctx.ob(rule, '%s::%s' % (rel, fn.name), what, False, 'line %d: module-level %s is %s' % (st.lineno, g, how), node=st, key='module state %s %s' % (fn.name, g))
     if not hits:
